@@ -290,7 +290,7 @@ fn accept_inputs<F: GenFam>(rng: &mut Rng, b: &mut Budget, n: usize, f: &mut dyn
             f("nonminimal-length", &nonminimal_rl(&fr));
             if e.len() <= 2000 {
                 let cat = catalogue(&fr, rng);
-                for m in cat.iter().filter(|m| matches!(m.m, "bad_utf8" | "wild_name" | "wild_resp" | "bad_filter" | "pid0" | "rl_long" | "rl_short")) {
+                for m in cat.iter().filter(|m| matches!(m.m, "bad_utf8" | "wild_name" | "wild_resp" | "bad_filter" | "pid0" | "rl_long" | "rl_short" | "payload_fmt")) {
                     f(m.m, &m.bytes);
                 }
                 for _ in 0..6.min(cat.len()) {
